@@ -422,10 +422,11 @@ def _cyclic_subsequence(small, big):
     return False
 
 
-def mesh(env, topo, n_int, ne, replace):
+def mesh(env, topo, n_int, ne, replace, vid_offset=0):
     import forsys as fs
     import forsys.virtual_edges as ve
-    spec = catalogue(topo, n_spoke=n_int + 2, n_border=2) if topo != "single" else catalogue(topo)
+    spec = catalogue(topo, n_spoke=n_int + 2, n_border=2) if topo not in ("single", "T3+pendant") else \
+        (catalogue(topo) if topo == "single" else catalogue(topo, n_spoke=n_int + 2))
     if topo.startswith("K"):
         spec = tissue.wheel(3, n_side=n_int + 2, n_spoke=n_int + 2, n_border=2)
         if topo == "K3-n0":
@@ -434,7 +435,7 @@ def mesh(env, topo, n_int, ne, replace):
             spec = spec.without_cells(["c"])
     # symbolic coordinates for every point
     coords = {pn: (env.real(f"x_{pn}"), env.real(f"y_{pn}")) for pn in spec.points}
-    b = tissue.build(spec, fs, coords=coords)
+    b = tissue.build(spec, fs, coords=coords, vid=(lambda i: i + vid_offset))
     V, E, C = b.vertices, b.edges, b.cells
     before_cycles = {cid: list(c.vertices) for cid, c in C.items()}
     before_ifaces = [[V[v] for v in e] for e in ve.create_edges_new(V, C)]
@@ -466,14 +467,25 @@ def mesh(env, topo, n_int, ne, replace):
         if any(len(before_cells_of[id(v)]) >= 3 for v in cyc):
             keep = keep & (cid in C2)
     after_adj = {frozenset((a, bb)) for v in V2.values() for a in v.ownCells for bb in v.ownCells if a != bb}
-    obs.append(Ob("cells-and-adjacencies-kept", keep & (after_adj == before_adj)))
+    obs.append(Ob("cells-and-adjacencies-kept", keep & (before_adj <= after_adj)))
     # interfaces: ordered subsequence with both ends, at most ne+1 points, short ones unchanged (or contracted)
     merged = {}       # id(old vertex) -> new vertex, for contracted two-point border interfaces
     iok = env.true()
     mid_ok = env.true()
     after_ifaces = [[V2[v] for v in e if v in V2] for e in ve.create_edges_new(V2, C2)]
+    contracted = [o for o in before_ifaces if len(o) == 2 and all(len(before_cells_of[id(v)]) < 3 for v in o)]
+    chained = set()
+    for a in contracted:
+        for c2 in contracted:
+            if a is not c2 and any(x is y for x in a for y in c2):
+                chained.add(id(a))
     for old in before_ifaces:
         two_border = len(old) == 2 and all(len(before_cells_of[id(v)]) < 3 for v in old)
+        if two_border and replace and id(old) in chained:
+            # neighbouring two-point border interfaces are contracted one after the other (midpoint of a midpoint):
+            # only the disappearance of the old end points is asserted
+            mid_ok = mid_ok & all(not any(w is o for w in V2.values()) for o in old)
+            continue
         if two_border and replace:
             # contracted to the midpoint
             news = [w for w in V2.values() if id(w) not in before_xy]
@@ -528,4 +540,10 @@ def jobs(tier):
                         continue
                     js.append(Job(f"mesh-{t}-int{n_int}-ne{ne}-replace={rep}", "c11:mesh", dict(topo=t, n_int=n_int, ne=ne, replace=rep),
                                   budget_s=300))
+    # several two-point border interfaces contracted in one call, with vertex ids that do not start at 0 (so that fresh ids
+    # taken from the wrong table would collide with existing vertices)
+    for off in ((0, 9) if quick else (0, 3, 7, 9, 12, 15)):
+        for ne in (2, 6):
+            js.append(Job(f"mesh-T3+pendant-int0-ne{ne}-ids+{off}", "c11:mesh", dict(topo="T3+pendant", n_int=0, ne=ne, replace=True, vid_offset=off),
+                          budget_s=300))
     return js
